@@ -91,3 +91,43 @@ Proof.
   cbn [Z.of_nat] in S. rewrite Z.mul_0_r in S.
   specialize (Pp v Hv). lia.
 Qed.
+
+Lemma nodup_same_addr l a b : NoDup (map v_addr l) -> In a l -> In b l -> v_addr a = v_addr b -> a = b.
+Proof.
+  induction l as [|h t IH]; intros N Ha Hb E; [destruct Ha|].
+  cbn [map] in N. inversion N as [|? ? Nh Nt]; subst.
+  destruct Ha as [->|Ha], Hb as [->|Hb]; try reflexivity.
+  - exfalso. apply Nh. rewrite E. now apply in_map.
+  - exfalso. apply Nh. rewrite <- E. now apply in_map.
+  - now apply IH.
+Qed.
+
+(** what exactly holds right after a round: from a state within a window W, one round leaves
+    the priorities within max (W + pmax - pmin, T) (so within 2T + pmax - pmin < 3T right after
+    the renormalisation; the window 2T itself is only re-established by the next call) *)
+Theorem spec_round_window W pmin pmax l l' a :
+  NoDup (map v_addr l) -> (forall v, In v l -> pmin <= v_power v <= pmax) ->
+  0 <= total_power l -> within_window W l -> spec_round l l' a ->
+  within_window (Z.max (W + pmax - pmin) (total_power l)) l'.
+Proof.
+  intros N Pw T0 Win (p & [Hp Hbest] & -> & ->) v' w' Hv' Hw'.
+  set (T := total_power l) in *.
+  unfold pay in Hv', Hw'. apply in_map_iff in Hv', Hw'.
+  destruct Hv' as (v1 & <- & Hv1). destruct Hw' as (w1 & <- & Hw1).
+  assert (forall x1, In x1 (advance l) -> exists x, In x l /\ v_prio x1 = v_prio x + v_power x) as Adv.
+  { intros x1 Hx1. unfold advance in Hx1. apply in_map_iff in Hx1. destruct Hx1 as (x & <- & Hx). exists x. auto. }
+  destruct (Adv v1 Hv1) as (v & Hv & Ev). destruct (Adv w1 Hw1) as (w & Hw & Ew).
+  pose proof (Win v w Hv Hw) as Dvw. pose proof (Pw v Hv) as Pv. pose proof (Pw w Hw) as Pww.
+  destruct (advance_fields l) as [A _].
+  assert (NoDup (map v_addr (advance l))) as N' by (rewrite A; exact N).
+  assert (forall x1, In x1 (advance l) -> v_addr x1 = v_addr p -> x1 = p) as Same
+      by (intros x1 Hx1 E; now apply (nodup_same_addr (advance l))).
+  assert (forall x1, In x1 (advance l) -> v_prio x1 <= v_prio p) as Mx.
+  { intros x1 Hx1. destruct (N.eq_dec (v_addr x1) (v_addr p)) as [E|E].
+    - rewrite (Same x1 Hx1 E). lia.
+    - destruct (Hbest x1 Hx1 E) as [L|[L _]]; lia. }
+  pose proof (Mx v1 Hv1) as Mv. pose proof (Mx w1 Hw1) as Mw.
+  destruct (N.eqb_spec (v_addr v1) (v_addr p)) as [E1|E1];
+    destruct (N.eqb_spec (v_addr w1) (v_addr p)) as [E2|E2]; cbn [set_prio v_prio];
+    try (rewrite (Same v1 Hv1 E1) in * ); try (rewrite (Same w1 Hw1 E2) in * ); lia.
+Qed.
